@@ -387,7 +387,9 @@ if __name__ == "__main__":
         try:
             TARGETS[nm](repo, out)
             print(f"generated {nm}")
-        except Unsupported as e:
+        except Exception as e:  # noqa: BLE001  (Unsupported = a construct outside the subset; anything else = a source shape the translator has no rule for)
+            if not isinstance(e, Unsupported):
+                e = RuntimeError(f"source shape outside the translated subset ({type(e).__name__}: {e})")
             print(f"TRANSLATOR-REFUSAL {nm}: {e}")
             rc = 2
             # fail closed: never leave a stale model of an older source behind
